@@ -1,6 +1,5 @@
 import OvniModel.Rt.FsSpec
 import OvniModel.Lemmas.FsFault
-import OvniModel.Lemmas.FsWitness
 set_option linter.unusedSimpArgs false
 
 /-! Lemmas connecting the statement-level definitions (`Rt/FsSpec`) to the
@@ -40,17 +39,24 @@ theorem isSome_of_visibleStream (fs : Fs) (r : Root) (tid : Nat) (h : tid ∈ vi
 
 /-- Every prefix of the run leaves every thread's entries in a state
     satisfying the thread invariant. -/
-theorem tinv_at_crash (C : Codec) (p : Prog) (hwf : WellFormed p) (hm : p.tmpMode = false ∨ ObsFirst p)
+theorem thread_tinv (C : Codec) (p : Prog) (t : ThreadProg) (k' : Nat) :
+    TInv C t (vrun t.tid View.empty ((ops (threadCalls C.ser p t)).take k')) := by
+  cases hp : p.tmpMode with
+  | false => exact (thread_direct C p t hp _ rfl).1 k'
+  | true => exact (thread_tmp C p t hp _ rfl).1 k'
+
+theorem thread_done (C : Codec) (p : Prog) (t : ThreadProg) (hf : t.free = true) :
+    vrun t.tid View.empty (ops (threadCalls C.ser p t)) = doneView C t := by
+  cases hp : p.tmpMode with
+  | false => exact (thread_direct C p t hp _ rfl).2 hf
+  | true => exact (thread_tmp C p t hp _ rfl).2 hf
+
+theorem tinv_at_crash (C : Codec) (p : Prog) (hwf : WellFormed p)
     (t : ThreadProg) (ht : t ∈ p.threads) (k : Nat) : TInv C t (viewOf (crashState C p k) t.tid) := by
   obtain ⟨k', hk'⟩ := view_at_crash C.ser p t ht hwf k
   unfold crashState
   rw [hk']
-  cases hp : p.tmpMode with
-  | false => exact (thread_direct C p t hp _ rfl).1 k'
-  | true =>
-    rcases hm with hm | hm
-    · rw [hp] at hm; cases hm
-    · exact (thread_tmp_obs_first C p t hp hm _ rfl).1 k'
+  exact thread_tinv C p t k'
 
 theorem visible_of_view (s : Fs) (cut : Path → Nat) (r : Root) (tid : Nat) :
     s.visible cut (.file r tid .obs) =
@@ -71,32 +77,17 @@ theorem copyExists_iff (s : Fs) (tid : Nat) : CopyExists s tid ↔ NoLoss (viewO
     · exact Or.inr ⟨r, d, pn, by cases r <;> exact h1, h2⟩
 
 /-- After every prefix of the fault-free run a complete copy exists. -/
-theorem copy_at_crash (C : Codec) (p : Prog) (hwf : WellFormed p) (hm : p.tmpMode = false ∨ ReaddirOrder p)
+theorem copy_at_crash (C : Codec) (p : Prog) (hwf : WellFormed p)
     (t : ThreadProg) (ht : t ∈ p.threads) (k : Nat) : CopyExists (crashState C p k) t.tid := by
   rw [copyExists_iff]
-  obtain ⟨k', hk'⟩ := view_at_crash C.ser p t ht hwf k
-  unfold crashState
-  rw [hk']
-  cases hp : p.tmpMode with
-  | false => exact ((thread_direct C p t hp _ rfl).1 k').noLoss
-  | true =>
-    rcases hm with hm | hm
-    · rw [hp] at hm; cases hm
-    · exact (thread_tmp_noloss C p t hp (Witness.streamEntries_of_perm hm) _ rfl).1 k'
+  exact (tinv_at_crash C p hwf t ht k).noLoss
 
 /-- The fault-free run leaves every freed thread complete. -/
-theorem complete_at_end (C : Codec) (p : Prog) (hwf : WellFormed p) (hm : p.tmpMode = false ∨ ReaddirOrder p)
+theorem complete_at_end (C : Codec) (p : Prog) (hwf : WellFormed p)
     (t : ThreadProg) (ht : t ∈ p.threads) (hf : t.free = true) :
     Complete C t (run p.init (ops (calls C.ser p))) := by
   have hv := view_at_end C.ser p t ht hwf
-  have hd : vrun t.tid View.empty (ops (threadCalls C.ser p t)) = doneView C t := by
-    cases hp : p.tmpMode with
-    | false => exact (thread_direct C p t hp _ rfl).2 hf
-    | true =>
-      rcases hm with hm | hm
-      · rw [hp] at hm; cases hm
-      · exact (thread_tmp_noloss C p t hp (Witness.streamEntries_of_perm hm) _ rfl).2 hf
-  rw [hd] at hv
+  rw [thread_done C p t hf] at hv
   have h1 : (run p.init (ops (calls C.ser p))).get (.file .fin t.tid .obs) = F t.obsBytes := congrArg View.ofn hv
   have h2 : (run p.init (ops (calls C.ser p))).get (.file .fin t.tid .json) = F (C.ser ⟨true, t.metaF⟩) :=
     congrArg View.jf hv
@@ -115,12 +106,12 @@ theorem complete_congr {C : Codec} {t : ThreadProg} {s s' : Fs}
   · rw [h _ rfl (by simp)]; exact hc.2.1
   · rw [Fs.flushed_eq, h _ rfl (by simp), ← Fs.flushed_eq]; exact hc.2.2
 
-theorem returned_ok {C : Codec} {p : Prog} {s : Fs}
-    (h : ∀ t ∈ p.threads, t.free = true → Complete C t s) : NotSilent C p (.returned s) :=
+theorem returned_ok {C : Codec} {p : Prog} {s : Fs} {fl : Option Site}
+    (h : ∀ t ∈ p.threads, t.free = true → Complete C t s) : NotSilent C p fl (.returned s) :=
   fun t ht hf => ⟨h t ht hf, complete_copy (h t ht hf)⟩
 
-theorem notSilent_returned {C : Codec} {p : Prog} {o : Outcome} (hr : Outcome.isReturned o = true)
-    (h : NotSilent C p o) : ∀ t ∈ p.threads, t.free = true → Complete C t o.fs ∧ CopyExists o.fs t.tid := by
+theorem notSilent_returned {C : Codec} {p : Prog} {o : Outcome} {fl : Option Site} (hr : Outcome.isReturned o = true)
+    (h : NotSilent C p fl o) : ∀ t ∈ p.threads, t.free = true → Complete C t o.fs ∧ CopyExists o.fs t.tid := by
   cases o with
   | returned s => exact h
   | die s => cases hr
@@ -161,46 +152,41 @@ instance (s : Fs) (tid : Nat) : Decidable (CopyExists s tid) :=
   decidable_of_iff _ (copyExists_iff_B s tid).symm
 
 
-/-- Direct mode has no relocation: the only unchecked call is `close(streamfd)`. -/
-theorem direct_unchecked (ser : Meta → List Nat) (p : Prog) (hp : p.tmpMode = false) :
-    ∀ c ∈ calls ser p, c.site.unchecked = true → c.site = .closeStream := by
-  have hwr : p.wr = .fin := by simp [Prog.wr, hp]
-  have mk : ∀ comps, ∀ c ∈ mkpathCalls comps, c.site.unchecked = true → c.site = .closeStream := by
-    intro comps c hc
-    simp only [mkpathCalls, List.mem_flatMap] at hc
-    obtain ⟨x, _, hc⟩ := hc
-    split at hc <;> simp only [List.mem_cons, List.not_mem_nil, or_false] at hc
-    · rcases hc with rfl | rfl <;> intro h <;> cases h
-    · subst hc; intro h; cases h
-  have st : ∀ r t js, ∀ c ∈ storeCalls r t js, c.site.unchecked = true → c.site = .closeStream := by
-    intro r t js c hc
-    simp only [storeCalls, List.mem_cons, List.not_mem_nil, or_false] at hc
-    rcases hc with rfl | rfl | rfl <;> intro h <;> cases h
-  intro c hc
-  simp only [calls, procInitCalls, procFiniCalls, hp, Bool.and_false, Bool.false_eq_true, if_false, List.append_nil,
-    List.mem_append, List.mem_flatMap] at hc
-  rcases hc with hc | ⟨t, _, hc⟩
-  · exact mk _ c hc
-  · simp only [threadCalls, threadInitCalls, hp, hwr, Bool.false_eq_true, if_false, List.append_nil, List.mem_append] at hc
-    rcases hc with (((h | h) | h) | h) | h
-    · exact mk _ c h
-    · simp only [List.mem_cons, List.not_mem_nil, or_false] at h
-      rcases h with rfl | rfl <;> intro h <;> cases h
-    · exact st _ _ _ c h
-    · simp only [List.mem_flatMap] at h
-      obtain ⟨stp, _, h⟩ := h
-      cases stp with
-      | io chunks =>
-        simp only [stepCalls, List.mem_map] at h
-        obtain ⟨d, _, rfl⟩ := h
-        intro h; cases h
-      | attrFlush b => exact st _ _ _ c h
-    · split at h
-      · simp only [threadFreeCalls, relocCalls, hp, Bool.false_eq_true, if_false, List.append_nil, List.mem_append] at h
-        rcases h with h | h
-        · exact st _ _ _ c h
-        · simp only [List.mem_cons, List.not_mem_nil, or_false] at h
-          subst h; intro _; rfl
-      · cases h
+/-- A copy survives calls that leave the working stream.obs and the ghost log
+    alone and at most move pending bytes of the final stream.obs to its disk part. -/
+theorem copy_after_die (S0 S' : Fs) (tid : Nat) (hK : Kept (viewOf S0 tid))
+    (h_ot : S'.get (.file .tmp tid .obs) = S0.get (.file .tmp tid .obs))
+    (h_g : S'.get (.ghost tid) = S0.get (.ghost tid))
+    (h_fin : ∀ d pn, S0.get (.file .fin tid .obs) = some (.file d pn) →
+      ∃ x pn', x <+: pn ∧ S'.get (.file .fin tid .obs) = some (.file (d ++ x) pn')) :
+    CopyExists S' tid := by
+  unfold CopyExists
+  rw [Fs.flushed_eq, h_g]
+  rcases hK with ⟨pn, h⟩ | ⟨_, d, h1, h2⟩ | h
+  · exact Or.inr ⟨.tmp, _, pn, by rw [h_ot]; exact h, rfl⟩
+  · obtain ⟨x, pn', hx, hS'⟩ := h_fin d [] h1
+    have : x = [] := List.prefix_nil.mp hx
+    subst this
+    exact Or.inr ⟨.fin, _, pn', hS', by rw [List.append_nil]; exact h2.symm⟩
+  · exact Or.inl h
+
+theorem copy_after_die_tmp (S0 S' : Fs) (tid : Nat) (hK : KeptTmp (viewOf S0 tid))
+    (h_ot : S'.get (.file .tmp tid .obs) = S0.get (.file .tmp tid .obs))
+    (h_g : S'.get (.ghost tid) = S0.get (.ghost tid)) : CopyExists S' tid := by
+  unfold CopyExists
+  rw [Fs.flushed_eq, h_g]
+  obtain ⟨pn, h⟩ := hK
+  exact Or.inr ⟨.tmp, _, pn, by rw [h_ot]; exact h, rfl⟩
+
+/-- `fwrite` into the final stream.obs of a thread: the working copy is intact. -/
+theorem fwrite_obs_at (C : Codec) (p : Prog) (hwf : WellFormed p) (t : ThreadProg) (ht : t ∈ p.threads)
+    (i : Nat) (d : List Nat) (hop : (ops (calls C.ser p))[i]? = some (.fwrite (.file .fin t.tid .obs) d)) :
+    KeptTmp (viewOf (crashState C p i) t.tid) := by
+  obtain ⟨k', hv, hk⟩ := view_and_op_at C.ser p t ht hwf i _ hop (by
+    intro h
+    exact h (.file .fin t.tid .obs) (by simp [tpaths]) (by simp [touch]))
+  unfold crashState
+  rw [hv]
+  exact thread_fwrite_pre C p t k' _ hk d rfl
 
 end Ovni.Rt.Fs
